@@ -31,6 +31,7 @@ type dbgPlan struct {
 	ResumeOnly   bool     `json:"resume_only,omitempty"`           // C15(c): static breakpoints, resume commands only, break-on-error off
 	StopAtRound  int      `json:"stop_threads_at_round,omitempty"` // C15: StopThreads() while the program runs / threads are suspended
 	StopAgain    bool     `json:"stop_again,omitempty"`            // ... and again for every thread that suspends after that
+	Second       bool     `json:"second_client,omitempty"`         // C15: a second client resumes suspended threads concurrently with the first
 	Lines        int      `json:"lines"`
 	// C16 only
 	Garbage bool `json:"garbage,omitempty"`
@@ -123,6 +124,7 @@ func dbgGen(r *simrt.RNG, tier string, garbage bool) interface{} {
 		p.StopAtRound = 1 + r.Intn(6)
 		p.StopAgain = r.Bool(0.5)
 	}
+	p.Second = !garbage && !p.ResumeOnly && p.StopAtRound == 0 && r.Bool(0.2)
 	return p
 }
 
@@ -154,6 +156,11 @@ func dbgShrink(pi interface{}) []interface{} {
 	if p.StopAgain {
 		q := clone()
 		q.StopAgain = false
+		out = append(out, q)
+	}
+	if p.Second {
+		q := clone()
+		q.Second = false
 		out = append(out, q)
 	}
 	// dropping a block shifts line numbers: re-map is not attempted, breakpoints are kept as numbers
@@ -351,7 +358,7 @@ func dbgExec(p *dbgPlan, src string, withDebugger bool, prop string) dbgOutcome 
 	// command chosen by the scheduler, at an instant chosen by the scheduler
 	var clients simsync.WaitGroup
 	stopClients := &hbFlag{}
-	if prop == "C16" && p.Garbage {
+	if (prop == "C16" && p.Garbage) || p.Second {
 		// a second debugger client (the debug server serves every connection on its own
 		// goroutine): resumes suspended threads - also the command thread of the first
 		// client, should an injected expression stop at a breakpoint - and inspects state
@@ -362,15 +369,19 @@ func dbgExec(p *dbgPlan, src string, withDebugger bool, prop string) dbgOutcome 
 			// may itself be suspended as the command thread of an injected expression)
 			for !stopClients.get() {
 				for _, tid := range dbgSuspended(dbg, prop) {
-					if simrt.ChooseP(0.3) {
+					if prop == "C16" && simrt.ChooseP(0.3) {
 						dbgCmd(dbg, prop, fmt.Sprintf("describe %d", tid))
 					}
 					if simrt.ChooseP(0.7) {
 						simrt.Count("fault_debug_second_client_cont")
-						dbgCmd(dbg, prop, fmt.Sprintf("cont %d %s", tid, []string{"resume", "stepover", "stepin", "stepout"}[simrt.Choose(4)]))
+						kinds := []string{"resume", "stepover", "stepin", "stepout"}
+						if prop == "C15" {
+							kinds = kinds[:3] // step-out at top level is C16's subject
+						}
+						dbgCmd(dbg, prop, fmt.Sprintf("cont %d %s", tid, kinds[simrt.Choose(len(kinds))]))
 					}
 				}
-				if simrt.ChooseP(0.1) {
+				if prop == "C16" && simrt.ChooseP(0.1) {
 					dbgCmd(dbg, prop, "lockstate")
 				}
 				simrt.Yield()
@@ -431,7 +442,7 @@ func dbgExec(p *dbgPlan, src string, withDebugger bool, prop string) dbgOutcome 
 			// a thread reported as suspended must be released by the continue addressed to
 			// it: a second continue for the same suspension (no debugger hook entered by the
 			// thread in between) means the first one was lost
-			if last, ok := st.lastCont[tid]; ok && last == st.progress[tid] && prop == "C15" {
+			if last, ok := st.lastCont[tid]; ok && last == st.progress[tid] && prop == "C15" && !p.Second {
 				simrt.Fail("oracle:thread-not-resumed", "continue-did-not-release",
 					"thread %d is still reported as suspended at the same place after a continue command was addressed to it (the command was consumed, the thread was not released)", tid)
 			}
